@@ -369,6 +369,39 @@ func genC16(t *rapid.T) C16Case {
 	return c
 }
 
+// ppBigTargets builds a large non-nested target set for a forest of n leaves in the R-row layout:
+// the leaves are cut into aligned groups of 4; every liftEvery-th group is claimed by ONE node
+// above row 0 (its row-2 node, or the row-1 node of its left half, alternating; liftEvery+liftOff
+// groups by both row-1 nodes), the other groups contribute the leaves selected by the 4-bit mask.
+// Groups that do not lie inside a single tree of height >= 2 are skipped. Ascending order.
+func ppBigTargets(n uint64, R uint8, mask uint64, liftEvery, liftOff uint64) []uint64 {
+	hs, firsts := treesOf(n)
+	var tg []uint64
+	for ti := range hs {
+		if hs[ti] < 2 {
+			continue
+		}
+		for g := firsts[ti] / 4; g < (firsts[ti]+(uint64(1)<<hs[ti]))/4; g++ {
+			switch {
+			case g%liftEvery == 0 && (g/liftEvery)%2 == 0:
+				tg = append(tg, model.Pos(2, g, R))
+			case g%liftEvery == 0:
+				tg = append(tg, model.Pos(1, 2*g, R))
+			case g%liftEvery == liftOff:
+				tg = append(tg, model.Pos(1, 2*g, R), model.Pos(1, 2*g+1, R))
+			default:
+				for i := uint64(0); i < 4; i++ {
+					if mask&(1<<i) != 0 {
+						tg = append(tg, model.Pos(0, 4*g+i, R))
+					}
+				}
+			}
+		}
+	}
+	sort.Slice(tg, func(a, b int) bool { return tg[a] < tg[b] })
+	return tg
+}
+
 func min64(a, b uint64) uint64 {
 	if a < b {
 		return a
@@ -445,6 +478,25 @@ func exhaustiveC16(t *testing.T, maxR uint8, maxN uint64) {
 			}
 		}
 	}
+	// a handful of LARGE deterministic ProofPositions instances (tens of thousands of mixed-row,
+	// non-nested targets): size thresholds inside the function are otherwise out of reach
+	bigNs := []uint64{20000, 40001, 65536}
+	if thorough() {
+		bigNs = append(bigNs, 100003, 131072, 150000)
+	}
+	bigUnits := 0
+	for _, n := range bigNs {
+		for _, R := range []uint8{model.Rows(n), model.Rows(n) + 1, 63} {
+			for _, mask := range []uint64{0xF, 0x5, 0xB} {
+				if !mine() {
+					continue
+				}
+				do(C16Case{Kind: "pp", R: R, N: n, Targets: ppBigTargets(n, R, mask, 7, 3)})
+				bigUnits++
+			}
+		}
+	}
+	rec.addExtraCount("large_proofpositions_instances", bigUnits)
 	rec.bulk(evals, nt)
 	rec.extra("exhaustive_subspace", fmt.Sprintf("every position/leaf-count/DetectOffset node for heights 0..%d; ProofPositions for every non-empty leaf subset of n<=%d leaves in layouts Rows(n), Rows(n)+1, 63 (dealt over shards)", maxR, maxN))
 }
